@@ -28,6 +28,10 @@ def run(check):
     from ._shared import rule_posindex
     check.run_rule('C19.R2p', lambda c: rule_posindex(c, 'C19.R2'))
     check.run_rule('C19.R3', lambda c: rule_mask_partial(c, M.mask(), 'C19.R3'))
+    # "the partial object has depth 0" is written into the '+depths' entry of the copy _mask takes in partial mode: copy_sources must give
+    # every copy that entry, whatever the input map has (shared with C08.R4 / C15.R9)
+    from ..rules_protocol import rule_source_helpers
+    check.run_rule('C19.R3c', lambda c: rule_source_helpers(c, {'depths': 'C19.R3', 'arith': None, 'dedup': None, 'complete': None}))
     check.run_rule('C19.R4', lambda c: rule_partial_discovery(c, 'C19.R4'))
     from ..rules_discovery import rule_translation
     check.run_rule('C19.R4c', lambda c: rule_translation(c, {'translate': 'C19.R4', 'fallback': None}))
